@@ -57,6 +57,7 @@ struct Group {
   Vec fromM(const Mat& M, int hemi = +1) const;  // inverse embedding; hemi=-1 flips the rotation coefficients (3-D)
   Mat exp(const Vec& t) const;          // expm(hat t)
   Vec log(const Mat& M, bool* ok = nullptr) const;     // principal log (rotation angle <= pi)
+  Vec log_seeded(const Mat& M, const Vec& seed, bool* ok = nullptr) const;  // Newton on expm from a given seed (continuous branch)
   Mat inv(const Mat& M) const;          // LU
   Mat Adj(const Mat& M) const;          // columns vee(M G_j M^-1)
   Vec act(const Mat& M, const Vec& p) const;  // homogeneous action, per block
@@ -85,14 +86,28 @@ Vec rotlog3(const Mat& R);       // principal rotation vector of a 3x3 rotation 
 Mat quat2rot(Real x, Real y, Real z, Real w);
 void rot2quat(const Mat& R, Real q[4]);  // Shepperd, w >= 0
 
+}  // namespace ref
+#include <functional>
+namespace ref {
 // numerical right-Jacobian of a map between groups/vectors by central differences of the
 // reference model itself:  J(:,j) = [ f(x (+) h e_j) (-) f(x (+) -h e_j) ] / 2h
 // Domain and codomain are either a group (element given as matrix) or a plain vector space.
 struct Space {
   const Group* g;  // nullptr => plain vector space of dimension dim
   int dim;
-  static Space group(const Group& G) { Space s; s.g = &G; s.dim = G.DoF; return s; }
-  static Space vec(int d) { Space s; s.g = nullptr; s.dim = d; return s; }
+  std::vector<char> rot;  // per coordinate: 1 = rotation-like (unit scale), 0 = linear (scaled by L)
+  static Space group(const Group& G) { Space s; s.g = &G; s.dim = G.DoF; s.rot = G.rot_tangent_mask(); return s; }
+  static Space tangent(const Group& G) { Space s; s.g = nullptr; s.dim = G.DoF; s.rot = G.rot_tangent_mask(); return s; }
+  static Space vec(int d) { Space s; s.g = nullptr; s.dim = d; s.rot.assign(d, 0); return s; }
 };
+typedef std::function<Mat(const Mat&)> Fn;
+// points of a group are its N x N matrices, points of a vector space are dim x 1 matrices.
+// step: h for rotation-like coordinates, h*L for linear ones.
+Mat fd_jacobian(const Space& dom, const Space& cod, const Fn& f, const Mat& x, Real h, Real L);
+// max |A-B| after unit-consistent scaling (rows: linear /L, cols: linear *L), relative to max(1, |B| scaled)
+Real diff_jac(const Mat& A, const Mat& B, const std::vector<char>& row_rot, const std::vector<char>& col_rot, Real L);
+// same for a product P = X*Y compared with its expected value E: entry (i,j) is additionally allowed an error relative to
+// (|X|*|Y|)_ij, the sum of the magnitudes of its terms (what any backward-stable evaluation of the product achieves)
+Real diff_prod(const Mat& X, const Mat& Y, const Mat& E, const std::vector<char>& row_rot, const std::vector<char>& col_rot, Real L);
 
 }  // namespace ref
